@@ -52,7 +52,13 @@ pub struct Case {
     /// parked or sleeping thread.
     #[serde(default)]
     pub leader_exit: bool,
+    /// name of the target's main thread (the comm field the kernel prints verbatim, blanks and
+    /// parentheses included, in /proc/<pid>/stat): 0 = the program's own
+    #[serde(default)]
+    pub main_name: u8,
 }
+
+const MAIN_NAMES: [&[u8]; 7] = [b"", b"web content", b"a T b", b"T", b"x) T (y", b"tab\tname", b"Isolated Web Co"];
 
 /// Flattens the soft-error JSON into a multiset of path tags.
 pub fn flatten(v: &Value, prefix: &str, out: &mut BTreeMap<String, u32>) {
@@ -161,6 +167,9 @@ pub fn check(c: &Case) -> Verdict {
         b.add_anon_at(ARENA + ARENA_SIZE, 1, 0, 0);
         synth = Some((phnum, phdr));
     }
+    if c.main_name as usize % MAIN_NAMES.len() != 0 {
+        b.spec.main_name = Some(MAIN_NAMES[c.main_name as usize % MAIN_NAMES.len()].to_vec());
+    }
     let survivor = ids.iter().find(|(_, k)| *k == K_PARKED).or_else(|| ids.iter().find(|(_, k)| *k == K_SLEEPER)).map(|(id, _)| *id);
     let leader_exit = c.leader_exit && c.auxv == AuxvPlan::Kernel && survivor.is_some();
     b.spec.leader_exit = leader_exit;
@@ -197,10 +206,22 @@ pub fn check(c: &Case) -> Verdict {
     let all_tids: Vec<(i32, u8)> = std::iter::once((pid, K_SLEEPER)).chain(ids.iter().map(|(id, k)| (t.tid(*id), *k))).collect();
     let comms: BTreeMap<i32, Vec<u8>> = all_tids.iter().filter_map(|(tid, _)| comm_of(pid, *tid).map(|c| (*tid, c))).collect();
 
+    // was the process in the stopped state when the stop step had finished?  (observed at the hook
+    // that fires right after it)
+    let stopped_seen = std::sync::Arc::new(std::sync::atomic::AtomicU8::new(0));
+    let state_of = move |pid: i32| -> u8 {
+        std::fs::read_to_string(format!("/proc/{pid}/status")).ok().and_then(|s| s.lines().find_map(|l| l.strip_prefix("State:").map(|r| r.trim().bytes().next().unwrap_or(b'?')))).unwrap_or(b'?')
+    };
+    let ss0 = stopped_seen.clone();
+    let hook0 = Box::new(move |p: minidump_writer::verif_hooks::Point| {
+        if p == minidump_writer::verif_hooks::Point::ThreadsEnumerated {
+            ss0.store(state_of(pid), std::sync::atomic::Ordering::SeqCst);
+        }
+    });
     // reference dump (no injected failure, no thread exit)
     let mut w0 = make_writer(pid, &opts);
     let mut d0 = Dest::new(vec![], 0);
-    let ref_img = match run_dump(&mut w0, &mut d0) {
+    let ref_img = match with_hook(hook0, || run_dump(&mut w0, &mut d0)) {
         DumpOutcome::Ok(v) => v,
         DumpOutcome::Err(e) => {
             return Verdict::viol(
@@ -222,8 +243,11 @@ pub fn check(c: &Case) -> Verdict {
         vec![]
     };
     let ex2 = exiters.clone();
+    let stopped_seen2 = std::sync::Arc::new(std::sync::atomic::AtomicU8::new(0));
+    let ss2 = stopped_seen2.clone();
     let hook = Box::new(move |p: minidump_writer::verif_hooks::Point| {
         if p == minidump_writer::verif_hooks::Point::ThreadsEnumerated {
+            ss2.store(state_of(pid), std::sync::atomic::Ordering::SeqCst);
             for (tid, wfd) in &ex2 {
                 cue_and_wait(pid, *tid, *wfd);
             }
@@ -267,6 +291,9 @@ pub fn check(c: &Case) -> Verdict {
     };
     let mut got = BTreeMap::new();
     flatten(&se, "", &mut got);
+    if got.contains_key("InitErrors/StopProcessFailed:Timeout") && stopped_seen2.load(std::sync::atomic::Ordering::SeqCst) == b'T' && !leader_exit {
+        return Verdict::viol("C11:spurious-soft-error:InitErrors/StopProcessFailed", format!("StopProcessFailed(Timeout) is reported (fail points {:#x}) although the process (main thread named {:?}) was in the stopped state when the stop step had finished", c.failmask, String::from_utf8_lossy(MAIN_NAMES[c.main_name as usize % MAIN_NAMES.len()])));
+    }
     // reference dump must be clean except for the natural failures
     let ref_se = match soft_errors_of(&ref_img, &ref_d) {
         Ok(v) => v,
@@ -300,6 +327,13 @@ pub fn check(c: &Case) -> Verdict {
         natural.insert("InitErrors/FillMissingAuxvInfoFailed".into(), 1);
         natural.insert(format!("SuspendThreadsErrors/PtraceAttachError:{pid}"), 1);
         natural.insert("WriteDSODebugStreamFailed".into(), 1);
+    }
+    if ref_got.contains_key("InitErrors/StopProcessFailed:Timeout") && stopped_seen.load(std::sync::atomic::Ordering::SeqCst) == b'T' && !leader_exit {
+        return Verdict::viol("C11:spurious-soft-error:InitErrors/StopProcessFailed", format!("StopProcessFailed(Timeout) is reported although the process (main thread named {:?}) was in the stopped state when the stop step had finished", String::from_utf8_lossy(MAIN_NAMES[c.main_name as usize % MAIN_NAMES.len()])));
+    }
+    // (a timeout that really happened - process not stopped after the full timeout - is environmental)
+    if !leader_exit {
+        ref_got.remove("InitErrors/StopProcessFailed:Timeout");
     }
     if ref_got != natural {
         let sig = if ref_got.len() > natural.len() { "C11:spurious-soft-error" } else { "C11:failure-not-reported" };
@@ -690,13 +724,13 @@ fn enum_cases() -> impl Iterator<Item = Case> {
         shapes
             .clone()
             .into_iter()
-            .map(move |(threads, cue, auxv)| Case { failmask: m, threads, cue_exiters: cue, auxv, seized: 0, limit: 0, leader_exit: false })
-            .chain(std::iter::once(Case { failmask: m, threads: vec![(K_PARKED, NameG::Utf8("survivor".into())), (K_SLEEPER, NameG::Unset)], cue_exiters: false, auxv: AuxvPlan::Kernel, seized: 0, limit: 0, leader_exit: true }))
+            .map(move |(threads, cue, auxv)| Case { failmask: m, threads, cue_exiters: cue, auxv, seized: 0, limit: 0, leader_exit: false, main_name: m % 7 })
+            .chain(std::iter::once(Case { failmask: m, threads: vec![(K_PARKED, NameG::Utf8("survivor".into())), (K_SLEEPER, NameG::Unset)], cue_exiters: false, auxv: AuxvPlan::Kernel, seized: 0, limit: 0, leader_exit: true, main_name: 0 }))
     })
 }
 
 pub fn run(ctx: &mut LaneCtx) {
-    ctx.assume("expected-error model: Stop -> InitErrors/StopProcessFailed; FillMissingAuxvInfo -> InitErrors/FillMissingAuxvInfoErrors (only when the auxv info is not already complete); ThreadName -> one ReadThreadNameFailed per thread; SuspendThreads -> PtraceAttachError(1234); CpuInfoFileOpen -> WriteCpuInformationFailed; non-UTF-8 comm -> ReadThreadNameFailed; null-SP thread -> DetachSkippedThread(tid); vanished thread -> PtraceAttachError(tid) or WaitPidError(tid); unreadable linker data or a library name that is not UTF-8 -> WriteDSODebugStreamFailed; zombie leader -> StopProcessFailed(Timeout) + FillMissingAuxvInfoFailed + PtraceAttachError(pid) + WriteDSODebugStreamFailed; otherwise StopProcessFailed(Timeout) is environmental and tolerated");
+    ctx.assume("expected-error model: Stop -> InitErrors/StopProcessFailed; FillMissingAuxvInfo -> InitErrors/FillMissingAuxvInfoErrors (only when the auxv info is not already complete); ThreadName -> one ReadThreadNameFailed per thread; SuspendThreads -> PtraceAttachError(1234); CpuInfoFileOpen -> WriteCpuInformationFailed; non-UTF-8 comm -> ReadThreadNameFailed; null-SP thread -> DetachSkippedThread(tid); vanished thread -> PtraceAttachError(tid) or WaitPidError(tid); unreadable linker data or a library name that is not UTF-8 -> WriteDSODebugStreamFailed; zombie leader -> StopProcessFailed(Timeout) + FillMissingAuxvInfoFailed + PtraceAttachError(pid) + WriteDSODebugStreamFailed; otherwise StopProcessFailed(Timeout) is environmental and tolerated only if the process was NOT in the stopped state when the stop step had finished (observed at the threads-enumerated hook); the main thread's name is the program's or one of six names with blanks, tabs and parentheses");
     ctx.assume("threads can only exit between enumeration and attach when the process was not stopped, so exiter schedules are exercised with the StopProcess fail point on; a target whose kernel auxv lacks entries cannot be manufactured (PR_SET_MM_AUXV is not permitted here)");
     ctx.run_enum(
         "failspot-subsets",
@@ -709,8 +743,8 @@ pub fn run(ctx: &mut LaneCtx) {
             name: "generated",
             cases: (800, 20_000),
             rule: "generated targets (0..8 extra threads of kinds parked/sleeper/null-sp/exiter with unset/UTF-8/non-UTF-8 names) x fail-point subset x auxv plan x exiter cue x a subset of threads (possibly all, possibly the main thread) held by a foreign tracer so that attaching to them fails x size limit none / always exceeded / generous x (a fifth of the cases, with the kernel's auxv) a thread-group leader that has exited on its own, so that stopping times out, the leader cannot be attached and /proc/<pid>/auxv cannot be opened; oracle = expected-error model equality + all other streams equal to the fault-free dump of the same target; non-trivial as above; distinct = hash of case",
-            strategy: (0u8..32, proptest::collection::vec(thread_strategy(), 0..9), any::<bool>(), prop_oneof![3 => Just(AuxvPlan::Kernel), 1 => Just(AuxvPlan::TrueDirect), 1 => Just(AuxvPlan::BadPhdr), 1 => Just(AuxvPlan::HugePhnum), 1 => Just(AuxvPlan::NonUtf8LibraryName)], prop_oneof![5 => Just(0u16), 3 => any::<u16>().prop_map(|m| m & 0x1fe), 1 => any::<u16>(), 2 => Just(0xffffu16)], (prop_oneof![2 => Just(0u8), 1 => 1u8..3], proptest::bool::weighted(0.2)))
-                .prop_map(|(failmask, threads, cue_exiters, auxv, seized, (limit, leader_exit))| fix(Case { failmask, threads, cue_exiters, auxv, seized, limit, leader_exit }))
+            strategy: (0u8..32, proptest::collection::vec(thread_strategy(), 0..9), any::<bool>(), prop_oneof![3 => Just(AuxvPlan::Kernel), 1 => Just(AuxvPlan::TrueDirect), 1 => Just(AuxvPlan::BadPhdr), 1 => Just(AuxvPlan::HugePhnum), 1 => Just(AuxvPlan::NonUtf8LibraryName)], prop_oneof![5 => Just(0u16), 3 => any::<u16>().prop_map(|m| m & 0x1fe), 1 => any::<u16>(), 2 => Just(0xffffu16)], (prop_oneof![2 => Just(0u8), 1 => 1u8..3], proptest::bool::weighted(0.2), prop_oneof![1 => Just(0u8), 1 => 1u8..7]))
+                .prop_map(|(failmask, threads, cue_exiters, auxv, seized, (limit, leader_exit, main_name))| fix(Case { failmask, threads, cue_exiters, auxv, seized, limit, leader_exit, main_name }))
                 .boxed(),
             max_shrink_iters: 200,
             log_current: true,
